@@ -186,7 +186,17 @@ def under_completed_contract(chk):
     def havoc(eng_, s):
         s.env["parent_id"] = eng_.sym_of_type("str | None", "parent_id", s)
         s.env.pop("parent", None)
-    eng.loop_handlers[(q, "while", 0)] = LoopContract(chk, "C17.state.under_completed_context.loop", inv, havoc, desc="the answer for the operation equals the answer for the ancestor about to be examined")
+    RANK = z3.Function("ancestor_depth", SS, z3.IntSort())
+    kk = z3.String("k!rank")
+    # U/C08 (ids encode their path): parent links recorded in the operations map form a forest - every recorded parent is strictly shallower
+    st.assume(z3.ForAll([kk], z3.And(RANK(kk) >= 0, z3.Implies(z3.And(z3.Select(m["has"], kk), z3.Not(m["par_none"](kk)), z3.Length(m["par"](kk)) > 0), RANK(m["par"](kk)) < RANK(kk)))))
+
+    def variant(eng_, s):
+        pid = s.env["parent_id"]
+        p = zstr(strip_opt(pid)) if strip_opt(pid) is not None else z3.StringVal("")
+        return z3.If(ops.truth(s, pid), RANK(p), -1)   # -1 once there is no further ancestor (the loop test is then false)
+    eng.loop_handlers[(q, "while", 0)] = LoopContract(chk, "C17.state.under_completed_context.loop", inv, havoc, desc="the answer for the operation equals the answer for the ancestor about to be examined",
+                                                      variant=variant, variant_desc="depth of the ancestor about to be examined; parent links form a forest (U/C08)")
     static = "staticmethod" in fi.decorators
     for k, v, s in eng.run(fi, [op, opsmap] if static else [self_, op], st=st):
         chk.paths += 1
